@@ -480,10 +480,13 @@ def run_atheris(run, seconds):
             procs.append(subprocess.Popen(
                 [sys.executable, drv, corpus, '-max_total_time=%d' % seconds, '-seed=%d' % (core.derive_seed(run.seed, 'ath', i) % 2 ** 31 or 1),
                  '-max_len=64', '-artifact_prefix=%s/crash%d-' % (tmp, i), '-print_final_stats=1'],
-                stdout=subprocess.PIPE, stderr=subprocess.STDOUT, cwd=tmp, env=dict(os.environ, PYTHONPATH=deps)))
+                stdout=open(os.path.join(tmp, 'fuzz%d.log' % i), 'wb'), stderr=subprocess.STDOUT, cwd=tmp, env=dict(os.environ, PYTHONPATH=deps)))
         execs = 0
         for i, p in enumerate(procs):
-            out = p.communicate()[0].decode('utf-8', 'replace')
+            # (output goes to a file: a pipe nobody drains stalls the campaign once it holds 64 KiB)
+            p.wait()
+            with open(os.path.join(tmp, 'fuzz%d.log' % i), 'rb') as f_:
+                out = f_.read().decode('utf-8', 'replace')
             for line in out.splitlines():
                 if 'stat::number_of_executed_units' in line:
                     execs += int(line.split()[-1])
